@@ -2,6 +2,7 @@ package main
 
 import (
 	"fmt"
+	"sync"
 	"math/big"
 	"strings"
 
@@ -590,6 +591,8 @@ func onlyUnretainedDiffs(w *hdr.World, a, b string) bool {
 // ---------------------------------------------------------------------------------------------
 // C12: a crash at any storage write during Clean or Save leaves a loadable, sound state.
 
+var crashImages sync.Map // digests of storage images loaded at crash points strictly inside a write sequence
+
 var oracleC12 = oracle{
 	pre: func(c *checker) {
 		switch c.op.K {
@@ -617,6 +620,11 @@ var oracleC12 = oracle{
 			cw := &hdr.World{Cfg: w.Cfg, Ctx: w.Ctx, Store: img}
 			repo := cw.NewRepo()
 			c.count("crash_points", 1)
+			if k > 0 && k < len(st.Mutated) {
+				if _, dup := crashImages.LoadOrStore(img.Digest(), true); !dup {
+					c.count("distinct_mid_sequence_images", 1)
+				}
+			}
 			err, p := hdr.Safe(func() error { return repo.Load(w.Ctx) })
 			c.n++
 			where := "mid"
